@@ -86,6 +86,13 @@ pub const CORE_TOKENS: &[&str] = &[
     ":", "+", "-", "*", "=", "==", "?", "$", "~", "$]", ".", "if", "return", "int",
 ];
 
+/// Medium alphabet (thorough: every sequence of 5 tokens): one token per syntactic role.
+pub const MEDIUM_TOKENS: &[&str] = &[
+    "x", "f", "a", "m", "it", "s", "0", "1.5", "\"s\"", "true", "()", "(", ")", "[", "]", "{", "}", ",", ";", ":=", ":", "=>",
+    "->", ".", "+", "-", "*", "**", "<", "==", "&&", "=", "+=", "@", "?", "\\", "$", "!", "$+", "$]", "~", "if", "else",
+    "match", "return", "loop", "while", "for", "in", "break", "mut", "struct", "mod", "int", "any",
+];
+
 /// Full alphabet: every keyword, every operator spelling, brackets, punctuation,
 /// one literal per kind, identifiers bound in the interpreter, type words.
 pub const FULL_TOKENS: &[&str] = &[
